@@ -243,6 +243,6 @@ From Verif Require Import Gov.Serial.
 (** deserializeVoteList (serializeVoteList l) = l for 39-byte candidates and amounts shorter than
     39 bytes: the stored ranking is read back exactly. *)
 Theorem C15_vote_list_round_trip : forall l,
-  Forall entry_wf l -> forall fuel, length (ser_list l) <= fuel -> deser_list fuel (ser_list l) = l.
+  Forall entry_wf l -> forall fuel, (length (ser_list l) <= fuel)%nat -> deser_list fuel (ser_list l) = l.
 Proof. exact vote_list_round_trip. Qed.
 Print Assumptions C15_vote_list_round_trip.
